@@ -470,6 +470,38 @@ def _is_zero_t(t):
     return isinstance(t, Term) and t.op == "const" and isinstance(t.args[0], (int, float, Fraction)) and not isinstance(t.args[0], bool) and t.args[0] == 0
 
 
+def _listed_columns(t):
+    """[A[:, c0], A[:, c1], ...] if t is A[:, [c0, c1, ...]] with a literal list of at least two constant columns"""
+    if isinstance(t, Term) and t.op == "getitem" and isinstance(t.args[1], Term) and t.args[1].op == "tuple" and len(t.args[1].args) == 2 and _term_full_slice(t.args[1].args[0]):
+        l_ = t.args[1].args[1]
+        if isinstance(l_, Term) and l_.op == "list" and len(l_.args) >= 2 and all(isinstance(c_, Term) and c_.op == "const" for c_ in l_.args):
+            return [Term("getitem", t.args[0], Term("tuple", t.args[1].args[0], c_)) for c_ in l_.args]
+    return None
+
+
+def _column_fill(t):
+    """stack(1, c0, ..., c_{m-1}) if t writes every column k = 0 .. m-1 of a fresh n x m table exactly once"""
+    cols = {}
+    x = t
+    while isinstance(x, Term) and x.op == "store" and len(x.args) == 3:
+        idx = x.args[1]
+        if not (isinstance(idx, Term) and idx.op == "tuple" and len(idx.args) == 2 and _term_full_slice(idx.args[0]) and isinstance(idx.args[1], Term) and idx.args[1].op == "const" and isinstance(idx.args[1].args[0], (int, Fraction)) and not isinstance(idx.args[1].args[0], bool)):
+            return None
+        k = int(idx.args[1].args[0])
+        if k in cols or k < 0:
+            return None
+        cols[k] = x.args[2]
+        x = x.args[0]
+    while isinstance(x, Term) and x.op == "astype" and x.args and isinstance(x.args[0], Term):
+        x = x.args[0]
+    if not (isinstance(x, Term) and x.op in ("zeros", "empty") and len(x.args) == 2 and isinstance(x.args[1], Term) and x.args[1].op == "const" and isinstance(x.args[1].args[0], (int, Fraction))):
+        return None
+    m = int(x.args[1].args[0])
+    if m < 2 or sorted(cols) != list(range(m)):
+        return None
+    return Term("stack", Term("const", Fraction(1)), *[cols[k] for k in range(m)])
+
+
 def _arange_bound(z):
     """k if z is the index vector 0 .. k-1 (np.arange(k), np.arange(n)[:k], with or without an integer cast)"""
     while isinstance(z, Term) and z.op == "astype" and z.args and isinstance(z.args[0], Term):
@@ -1192,6 +1224,19 @@ class Normalizer:
                 if r is not None:
                     return r
             return P_atom(A("getitem", wrap(pb), fi))
+        if op == "store" and _column_fill(t) is not None:
+            return self.nf(_column_fill(t))  # a table filled column by column, every column once: the columns side by side
+        if op == "stack" and len(a) >= 2 and isinstance(a[0], Term) and a[0].op == "const" and a[0].args[0] == 1 and any(isinstance(b_, Term) and ((b_.op == "stack" and len(b_.args) >= 2 and b_.args[0] == a[0]) or _listed_columns(b_) is not None) for b_ in a[1:]):
+            # nested column blocks / a block of listed columns A[:, [c0, c1]]: flattened to single blocks
+            flat_ = []
+            for b_ in a[1:]:
+                if isinstance(b_, Term) and b_.op == "stack" and len(b_.args) >= 2 and b_.args[0] == a[0]:
+                    flat_.extend(b_.args[1:])
+                elif _listed_columns(b_) is not None:
+                    flat_.extend(_listed_columns(b_))
+                else:
+                    flat_.append(b_)
+            return self.nf(Term("stack", a[0], *flat_))
         if op == "store":
             base, idx, val = a
             if _term_full_slice(idx) and isinstance(val, Term) and val.op in ("where3", "emin", "emax") and base in val.args:
